@@ -38,6 +38,23 @@ NOTES = {
     "C07_g": "no repetitions inside grid_search: three repetitions of one seed, trajectory digests", "C07_h": "other models only stepped BETWEEN timesteps: also from inside a system",
     "C13_g": "residents never gained components in C13's runs: they do now (C03's known findings tolerated there)",
     "C14_h": "name literals were the same interned objects: equal strings built at run time",
+    "C02_j": "plain System subclasses only: every fourth scripted system is built on Collector",
+    "C03_j": "listings only read between timesteps: composition traces (systems changing the population mid-timestep) in C03",
+    "C04_i": "models never completed in the world driver: `complete_model` while the population keeps changing",
+    "C13_i": "models never completed in the world driver: `complete_model`, then queries",
+    "C07_i": "no neighbourhood lists shuffled in place: the grid model shuffles the list the world hands out",
+    "C09_i": "generators never read the component they replace: `halve` re-adds a component from its own current values",
+    "C15_i": "static collectors only: a fixture that replaces its collector after a burn-in phase",
+    "C15_j": "one list per dictionary: a sibling list from the same dictionary is edited before the batch",
+    "C16_j": "large magnitudes only as multiples of 2^61: integer scores 10^18 + s for MIN/MAX/SUM",
+    "C17_i": "unique collector ids: a second collector under a taken id (must be rejected, the first keeps recording)",
+    "C18_j": "only the set of systems was compared: the decoded model is stepped once and the run order compared with the declared scheduling",
+    "C19_i": "the list returned by itemize() was never edited: it is now", "C20_i": "all class components built for one model: alternating models",
+    "C04_j": "NOT detected - outside the quantifier (extent strictly between 0 and 1; the statement lists extents 0 or >= 1; observation O5)",
+    "C06_j": "NOT detected - outside the quantifier (needs `priority` changed after registration; only the order of a completed model's queue changes)",
+    "C07_j": "NOT detected - outside the quantifier (an environment that already drew for one model is handed to a second model with set_model)",
+    "C17_j": "NOT detected by C17 - it is C04's defect class (duplicate-id check on a component-less resident; C04's check detects the same edit, C04_a)",
+    "C18_i": "NOT detected - outside the quantifier (a pre hook that imports the group's module or rebinds its class name)",
 }
 
 
@@ -50,20 +67,22 @@ def main():
         first = json.load(open(d + "result_first.json")) if os.path.exists(d + "result_first.json") else None
         det = ",".join(now.get("detected_by", [])) or "MISSED"
         if name in NOTES:
-            fv = "missed - " + NOTES[name]
+            fv = NOTES[name] if NOTES[name].startswith("NOT detected") else "missed - " + NOTES[name]
         elif first is not None:
             fv = "detected" if first.get("detected_by") else "missed"
         else:
             fv = "detected"
         rows.append(f"| {name} | {m['what'][:170].replace('|', '/')} | {m['needs'][:150].replace('|', '/')} | {det} | {fv} |")
     head = ("\n### 11.5 Independently seeded changes (`/verif/seeded/<id>/`)\n\n"
-            "One hundred and sixty changes were produced in four rounds by fresh sub-agents that saw only the text of one property and a scratch worktree "
-            "(two per property and round; ids `_a`,`_b` = round 1, `_c`,`_d` = round 2, `_e`,`_f` = round 3, `_g`,`_h` = round 4; the agents of later rounds were told "
-            "what the earlier rounds had produced and asked for something different; round 4 was asked to stay strictly inside the quantifier text). Each passes the 110 tests, and its demonstration fails with the change and passes without it "
+            "Two hundred changes were produced in five rounds by fresh sub-agents that saw only the text of one property and a scratch worktree "
+            "(two per property and round; ids `_a`,`_b` = round 1, `_c`,`_d` = round 2, `_e`,`_f` = round 3, `_g`,`_h` = round 4, `_i`,`_j` = round 5; the agents of later rounds were told "
+            "what the earlier rounds had produced and asked for something different; round 4 was asked to stay strictly inside the quantifier text, "
+            "round 5 to look for the least obvious failure). Each passes the 110 tests, and its demonstration fails with the change and passes without it "
             "(re-confirmed by `tools/seedcheck.py import`). `tools/seedcheck.py run` applies a patch to `/repo`, runs the property's quick check "
             "and undoes it (`git checkout -- .`); `run --scratch` does the same on a scratch copy (`VERIF_REPO`) so that runs can go in parallel. "
-            "**All of them are detected by the quick check of their property** (`result_quick.json`, current checks). "
-            "The checks as they stood when a round arrived missed 8 of round 1, 17 of round 2, 16 of round 3 and 5 of round 4 (`result_first.json`); each miss was a gap in what the *drivers* "
+            "**195 of the 200 are detected by the quick check of their property** (`result_quick.json`, current checks); the five that are not need a "
+            "situation outside the property's quantifier and are marked in the table. "
+            "The checks as they stood when a round arrived missed 8 of round 1, 17 of round 2, 16 of round 3, 5 of round 4 and 18 of round 5 (`result_first.json`); each miss was a gap in what the *drivers* "
             "exercised, closed as noted - the specifications' obligations were not changed for any of them and no check was loosened. "
             "Two patches (`C05_b`, `C05_c`) were re-based onto the hook commit (`patch_before_hook.diff` keeps the original).\n\n"
             "| id | change | needs | detected by | first version of the checks |\n|---|---|---|---|---|\n")
